@@ -128,3 +128,33 @@ def kf_tok_unterm_writes_past(case, o, kind, cfg, consts):
 @pred
 def kf_strzero_unprotected(case, o, kind, cfg, consts):
     return False   # a source-shape finding (no failing input): reported by check_C18 from the regenerated shape
+
+@pred
+def kf_conv_len_exceeds_dmax(case, o, kind, cfg, consts):
+    # mbstowcs_s / wcstombs_s hand 'len' to libc unclamped: with len > dmax libc stores up to len elements
+    m = case.meta
+    return m.get('cls') == 'conv' and m.get('op') in ('mbstowcs', 'wcstombs') and kind == 'write-past-dmax' and m['len'] > m['dmax'] and o.fault == '-'
+
+@pred
+def kf_wcxtomb_small_dmax(case, o, kind, cfg, consts):
+    # wcrtomb_s / wctomb_s call libc with dest before knowing whether the character fits: up to MB_CUR_MAX bytes are stored
+    m = case.meta
+    if not (m.get('cls') == 'conv' and m.get('op') in ('wcrtomb', 'wctomb') and kind == 'write-past-dmax' and o.fault == '-'): return False
+    try: nb = len(chr(m['wc']).encode('utf-8'))
+    except Exception: return False
+    return nb > m['dmax'] and o.blocks[1][nb:] == case.blocks[1][1][nb:]
+
+@pred
+def kf_wcstombs_empty(case, o, kind, cfg, consts):
+    # wcstombs_s: "l > 0 && l < dmax" -- a converted length of 0 (empty wide string, len = 0, or len smaller than the
+    # first character) is reported as ESNOSPC
+    m = case.meta
+    if not (m.get('cls') == 'conv' and m.get('op') == 'wcstombs' and kind in ('valid-rejected', 'query-length') and o.ret == '406'): return False
+    chars = m.get('chars') or []
+    if not chars: return True
+    if m['kind'] == 'query': return False
+    return m['len'] < len(chr(chars[0]).encode('utf-8'))
+
+@pred
+def kf_wcstombs_len0(case, o, kind, cfg, consts):
+    return False
